@@ -15,6 +15,7 @@ Reading guide
 import EPV.Lemmas.SeqFunsLaws
 import EPV.Lemmas.SeqFunsLazy
 import EPV.Lemmas.SeqFunsMinMax
+import EPV.Lemmas.SeqFunsRnd
 namespace EPV.C08
 open EPV.Seq
 
@@ -106,6 +107,7 @@ is the right fold of the F&O definition, for every list of doubles -/
 theorem sum_loop_eq_fo_fold (l : List D) : sumRight l = Spec.sumDoubles l := sumRight_eq l
 
 set_option maxRecDepth 8000 in
+set_option exponentiation.threshold 3000 in
 /-- test (F08q, fixed): `sum((1e0, 1e0, 9007199254740992e0))` is `1 + (1 + 2^53)` = 2^53 with
 every addition rounded, not the exact 2^53 + 2 of a compensated summation; and
 `avg((9007199254740993, 1e0))` promotes the integer first. -/
@@ -115,17 +117,16 @@ example :
     fnAvg [] [.int 9007199254740993, .dbl (.fin 1 0)] = .ok [.dbl (.fin 4503599627370496 0)] :=
   ⟨by rfl, by rfl⟩
 
-set_option maxRecDepth 8000 in
-/-- test (F08v, fixed; F08u): `sum((xs:untypedAtomic(' 1.5 '), 2))` = 3.5e0 (7881299347898368 / 2^51), an invalid
-xs:untypedAtomic gives FORG0001, a node with a valid string value is cast, a node with an
-invalid one is outside the modelled fragment (`sumNodeInvalid`, known finding F08u). -/
+set_option maxRecDepth 100000 in
+set_option exponentiation.threshold 3000 in
+/-- test (F08v, F08u, both fixed): `sum((xs:untypedAtomic(' 1.5 '), 2))` = 3.5e0 (7881299347898368 / 2^51), an
+invalid xs:untypedAtomic gives FORG0001, a node with a valid string value is cast, a node with an
+invalid one gives FORG0001 as well. -/
 example :
     fnSum [] [.untyped " 1.5 ", .int 2] none = .ok [.dbl (.fin 7881299347898368 51)] ∧
     fnSum [] [.untyped "x", .int 2] none = .error .FORG0001 ∧
     fnSum ["2", "abc"] [.node 0, .int 2] none = .ok [.dbl (.fin 4503599627370496 50)] ∧
-    fnSum ["2", "abc"] [.node 1, .int 2] none = .error .UNSUPPORTED ∧
-    Spec.sumNodeInvalid ["2", "abc"] [.node 1, .int 2] = true ∧
-    Spec.sumNodeInvalid ["2", "abc"] [.node 0, .int 2] = false := ⟨by rfl, by rfl, by rfl, by rfl, by rfl, by rfl⟩
+    fnSum ["2", "abc"] [.node 1, .int 2] none = .error .FORG0001 := by decide +kernel
 
 /-- fn:min / fn:max on arbitrary items (atomization, cast of xs:untypedAtomic): dispatch on
 strings / booleans / integers / decimals / doubles, NaN, FORG0006 for mixed kinds; Python's
@@ -133,26 +134,44 @@ strings / booleans / integers / decimals / doubles, NaN, FORG0006 for mixed kind
 theorem min_max_eq_spec (cl : Coll) (doc : List String) (isMax : Bool) (xs : Seq) :
     fnMinMax cl doc isMax xs = Spec.fnMinMax cl doc isMax xs := fnMinMax_eq cl doc isMax xs
 
-/-- PARTIAL in one hypothesis (monotone rounding, see `Spec.promotionMonotoneOn`).  fn:max / fn:min
-in the wording of F&O §14.4.3 / §14.4.4 for numeric values of which at least one is an xs:double
-and none is NaN: the code compares the exact values (Python compares int, Decimal and float
-exactly) and promotes the selected item; the result is an item of the sequence *converted to
-xs:double* such that no other converted item is greater (less) — provided the promotion is monotone on
-the values at hand.  That holds for every sequence of real doubles because IEEE rounding is monotone;
-this fact about the kernel function `rnd` is not proved: the hypothesis is decidable and the driver
-evaluates it on every fn:max / fn:min that the harness runs (answer field `m`). -/
+/-- **Round-to-nearest-even is monotone.**  For all integers `n1 n2` and positive `d1 d2`: if
+`n1 / d1 ≤ n2 / d2` then the binary64 value nearest to `n1 / d1` is not above the one nearest to
+`n2 / d2` (gradual underflow, ±INF from 2^1024 on, signed zeros).  `rnd` is the kernel function that
+model and specification use for `float(int)`, `float(Decimal)`, `+`, `*`, `/` on doubles. -/
+theorem rnd_monotone (n1 n2 : Int) (d1 d2 : Nat) (hd1 : 0 < d1) (hd2 : 0 < d2)
+    (h : n1 * (d2 : Int) ≤ n2 * (d1 : Int)) :
+    XV.lt (rnd n2 d2).val (rnd n1 d1).val = false := rnd_mono n1 n2 d1 d2 hd1 hd2 h
+
+/-- numbers with at most 53 significant bits are fixed points of the rounding: `m * 2^g * d / d` is
+rounded to `m * 2^g` units of 2^-1074 -/
+theorem rnd_exact_on_53_bits (m g d : Nat) (hm0 : 1 ≤ m) (hm : m < 2 ^ 53) (hd : 1 ≤ d) :
+    sv (m * 2 ^ g * d) d = m * 2 ^ g := sv_exact m g d hm0 hm hd
+
+/-- The promotion to xs:double preserves the order of the items: for integers of any size, decimals
+and doubles that are binary64 values (`Spec.goodItem`), if the promoted `x` is below the promoted `y`
+then the exact `x` is below the exact `y`. -/
+theorem promotion_preserves_order (x y : Atom) (gx : Spec.goodItem x = true) (gy : Spec.goodItem y = true)
+    (h : D.lt (Spec.toDouble x) (Spec.toDouble y) = true) : XV.lt (Spec.exact x) (Spec.exact y) = true :=
+  promotion_mono_pair x y gx gy h
+
+/-- fn:max / fn:min in the wording of F&O §14.4.3 / §14.4.4, **unconditional in the rounding** (phase 4):
+for numeric values of which at least one is an xs:double and none is NaN the code compares the exact
+values (Python compares int, Decimal and float exactly) and promotes the selected item; the result is
+an item of the sequence *converted to xs:double* such that no other converted item is greater (less).
+The only hypothesis about the items is the representation invariant `Spec.goodItem`: a `.dbl d` denotes
+a binary64 value (the type `D` also contains dyadics with more than 53 bits; the `example` below shows
+that the conclusion fails for such a pseudo-double).  The driver checks the invariant on every
+fn:max / fn:min argument it evaluates (answer field `m`). -/
 theorem min_max_fo_literal (cl : Coll) (isMax : Bool) (a : Atom) (rest : Seq)
     (hout : Spec.outsideAgg (a :: rest) = false) (hnum : Spec.allKind .num (a :: rest) = true)
     (hdbl : Spec.anyDouble (a :: rest) = true) (hnan : (a :: rest).any (· == Atom.dbl .nan) = false)
-    (hmono : Spec.promotionMonotoneOn (a :: rest) = true) :
+    (hgood : (a :: rest).all Spec.goodItem = true) :
     ∃ r, minMaxCore cl isMax (a :: rest) = .ok [.dbl r] ∧ Spec.IsExtremeOfConverted isMax (a :: rest) r := by
   rw [minMaxCore_eq cl isMax _ hout]
-  exact minMaxCore_fo_literal cl isMax a rest hout hnum hdbl hnan hmono
+  exact minMaxCore_fo_literal cl isMax a rest hout hnum hdbl hnan (promotionMonotoneOn_of_good _ hgood)
 
-/-- **Unconditional** for the values whose promotion is exact (xs:double values and integers up to
-2^53 in magnitude): fn:max / fn:min return an item of the converted sequence such that no other
-converted item is greater (less).  The hypothesis of `min_max_fo_literal` is needed only where
-the promotion rounds (larger integers, xs:decimal values). -/
+/-- Where the promotion is exact (any `D` value, integers up to 2^53 in magnitude) not even the
+representation invariant is needed. -/
 theorem min_max_fo_literal_exact (cl : Coll) (isMax : Bool) (a : Atom) (rest : Seq)
     (hex : (a :: rest).all exactlyPromotable = true)
     (hdbl : Spec.anyDouble (a :: rest) = true) (hnan : (a :: rest).any (· == Atom.dbl .nan) = false) :
@@ -166,20 +185,28 @@ theorem min_max_fo_literal_exact (cl : Coll) (isMax : Bool) (a : Atom) (rest : S
     unfold Spec.allKind; rw [List.all_eq_true]; intro x hx
     have := hall x hx
     cases x <;> simp_all [exactlyPromotable, Spec.kind]
-  exact min_max_fo_literal cl isMax a rest hout hnum hdbl hnan (promotionMonotoneOn_of_exact _ hex)
+  rw [minMaxCore_eq cl isMax _ hout]
+  exact minMaxCore_fo_literal cl isMax a rest hout hnum hdbl hnan (promotionMonotoneOn_of_exact _ hex)
 
 set_option maxRecDepth 8000 in
-/-- the hypothesis holds on a non-trivial input: `(9007199254740993, 9007199254740992e0, 0.5)` —
-the integer 2^53 + 1 is rounded to 2^53 and ties with the double -/
-example : Spec.promotionMonotoneOn [.int 9007199254740993, .dbl (.fin 9007199254740992 0), .dec 5 1] = true := by
-  decide
+set_option exponentiation.threshold 3000 in
+/-- the invariant holds on real doubles — 2^53, 1.5, the least subnormal 2^-1074, the greatest finite
+double, −0 — and the promotion is monotone on `(9007199254740993, 9007199254740992e0, 0.5)`, where the
+integer 2^53 + 1 is rounded to 2^53 and ties with the double -/
+example :
+    [Atom.dbl (.fin 9007199254740992 0), .dbl (.fin 3 1), .dbl (.fin 1 1074), .dbl .nzero, .dbl .pinf,
+      .dbl (.fin (9007199254740991 * 2 ^ 971) 0), .int (10 ^ 400), .dec 5 1].all Spec.goodItem = true ∧
+    Spec.promotionMonotoneOn [.int 9007199254740993, .dbl (.fin 9007199254740992 0), .dec 5 1] = true := by
+  decide +kernel
 
 set_option maxRecDepth 8000 in
-/-- the hypothesis cannot be dropped for the type `D` as it stands: `D.fin (2^60 + 1) 0` is not a
-representable xs:double (the harness never produces one); with it the exact comparison and the
-comparison after promotion select different values -/
+set_option exponentiation.threshold 3000 in
+/-- the invariant cannot be dropped for the type `D` as it stands: `D.fin (2^60 + 1) 0` is not a
+binary64 value (`goodItem` is false; the harness never produces one); with it the exact comparison and
+the comparison after promotion select different values -/
 example :
     let s : Seq := [.int 1152921504606846977, .dbl (.fin 1152921504606846977 0)]
+    s.all Spec.goodItem = false ∧
     Spec.promotionMonotoneOn s = false ∧ minMaxCore .codepoint true s = .ok [.dbl (.fin 1152921504606846976 0)] ∧
       ¬ (∀ y ∈ s.map Spec.toDouble, D.lt (.fin 1152921504606846976 0) y = false) := by
   decide
@@ -246,9 +273,11 @@ predicate — included.  `Spec.foSum` is the F&O definition of the sum of xs:dou
 only summation in use since fix F08q). -/
 theorem eval_eq_sem (e : Expr) (c : Ctx) : eval e c = Spec.sem Spec.foSum e c := EPV.Seq.eval_eq_sem e c
 
-/-- PARTIAL (known finding F08b).  Parsing plus evaluation agrees with the semantics when no
-clause variable's name occurs in its own range expression.  The full statement
-`parseEval e c = Spec.sem e c` is false: see `loop_var_check_rejects_valid`. -/
+/-- PARTIAL (known finding F08b, narrowed in phase 4).  Parsing plus evaluation agrees with the semantics
+when no clause variable's name occurs *free* in its own range expression (occurrences bound by an inner
+for/some/every of the range expression or by a previous clause of the same expression are accepted since
+the partial repair).  The full statement `parseEval e c = Spec.sem e c` is false: an outer binding of
+the name is still not seen by the parser, see `loop_var_check_rejects_valid`. -/
 theorem parse_eval_eq_sem_partial (e : Expr) (c : Ctx) (h : e.loopVarInRange = false) :
     parseEval e c = Spec.sem Spec.foSum e c := by
   simp [parseEval, h, EPV.Seq.eval_eq_sem]
@@ -260,6 +289,18 @@ theorem loop_var_check_rejects_valid :
     let c : Ctx := { item := some (.int 7), pos := 1, size := 1, vars := [(0, [.int 3, .int 1, .int 2])], doc := [] }
     e.loopVarInRange = true ∧ parseEval e c = .error .XPST0008 ∧
       Spec.sem Spec.foSum e c = .ok [.int 3, .int 1, .int 2] := ⟨by rfl, by rfl, by rfl⟩
+
+/-- the expressions that the partial repair of F08b admits: `for $v5 in (for $v5 in (1, 2) return $v5) return $v5`
+and `for $v5 in (1, 2), $v5 in ($v5, 9) return $v5` pass the check and have the value of the semantics -/
+example :
+    let c : Ctx := { item := none, pos := 1, size := 1, vars := [], doc := [] }
+    let inner := Expr.forE (.one 5 (.forE (.one 5 (.comma (.lit (.int 1)) (.lit (.int 2)))) (.var 5))) (.var 5)
+    let again := Expr.forE (.cons 5 (.comma (.lit (.int 1)) (.lit (.int 2)))
+      (.one 5 (.comma (.var 5) (.lit (.int 9))))) (.var 5)
+    inner.loopVarInRange = false ∧ parseEval inner c = .ok [.int 1, .int 2] ∧
+    again.loopVarInRange = false ∧ parseEval again c = .ok [.int 1, .int 9, .int 2, .int 9] ∧
+    (Expr.forE (.cons 5 (.comma (.var 5) (.lit (.int 1))) (.one 5 (.lit (.int 2)))) (.var 5)).loopVarInRange = true := by
+  decide
 
 /-- the hypothesis of the partial theorem holds on a non-trivial expression:
 `for $v1 in $v0, $v2 in (1 to $v1) return $v2` -/
